@@ -701,6 +701,39 @@ def rule_runtime_support(rep: Report, repo: Repo):
     # _mask = np.vectorize(<entry is zero>, otypes=[bool]): the predicate may be a lambda or a module-level function
     mk = [n for n in tree.body if isinstance(n, ast.Assign) and norm(n.targets[0]) == "_mask"]
     pred_ok, pred_txt = False, "missing"
+    mdef = [n for n in tree.body if isinstance(n, ast.FunctionDef) and n.name == "_mask" and len(n.args.args) == 1]
+    if not mk and len(mdef) == 1:
+        # written out: the truth values of `e is zero` over the flattened array, put back into the array's shape.  The flattening
+        # and the reshape must use the same (C) order.
+        from .resolve import env_at as _ea9
+        arr = mdef[0].args.args[0].arg
+        ro = [n for n in ast.walk(mdef[0]) if isinstance(n, ast.Return)]
+        if len(ro) != 1:
+            raise AnalysisError(R, "_mask: expected one return")
+        v = _resolved(ro[0].value, _ea9(ro[0], mdef[0]))
+        ok_form = isinstance(v, ast.Call) and isinstance(v.func, ast.Attribute) and v.func.attr == "reshape" and [norm(a_) for a_ in v.args] == [f"{arr}.shape"]
+        inner = v.func.value if ok_form else None
+        gen = None
+        if isinstance(inner, ast.Call) and call_name(inner) in ("np.fromiter", "np.array") and inner.args and isinstance(inner.args[0], (ast.GeneratorExp, ast.ListComp)):
+            gen = inner.args[0]
+        if gen is None or len(gen.generators) != 1:
+            raise AnalysisError(R, f"_mask: form `{norm(v)[:80]}` not understood")
+        g0 = gen.generators[0]
+        it = norm(g0.iter)
+        C_ORDER = (f"{arr}.ravel()", f"{arr}.flat", f"{arr}.ravel(order='C')", f"{arr}.reshape(-1)", f"{arr}.flatten()", f"{arr}.ravel('C')")
+        OTHER_ORDER = tuple(f"{arr}.ravel(order='{o_}')" for o_ in "KFA") + tuple(f"{arr}.ravel('{o_}')" for o_ in "KFA") + \
+            tuple(f"{arr}.flatten(order='{o_}')" for o_ in "KFA")
+        pred_txt = f"{_ctext(gen.elt)} over {it}"
+        if _ctext(gen.elt) != f"{norm(g0.target)} is zero":
+            raise AnalysisError(R, f"_mask: element predicate `{norm(gen.elt)}` not understood")
+        if it in C_ORDER:
+            pred_ok = True
+        elif it in OTHER_ORDER:
+            pred_ok = False
+            pred_txt += " -- flattened in memory / Fortran order but reshaped in C order: the mask lands on permuted positions whenever the "\
+                        "indexed result is not C-contiguous (a list index after a slice)"
+        else:
+            raise AnalysisError(R, f"_mask: iteration `{it}` not understood")
     if len(mk) == 1 and isinstance(mk[0].value, ast.Call) and call_name(mk[0].value) == "np.vectorize" and mk[0].value.args:
         pr = mk[0].value.args[0]
         kw = {k.arg: norm(k.value) for k in mk[0].value.keywords}
